@@ -395,13 +395,14 @@ func c06Histories(r *SeqResult, thorough bool) {
 					p1 = parsers[i]
 				}
 				m1, err := diam.ReadMessage(rd[0], p1)
-				if err != nil {
+				if err != nil && m1 == nil {
 					if i >= nReg {
 						return // an odd payload the decoder rejects is never retained
 					}
 					viol = "first message unreadable: " + err.Error()
 					return
 				}
+				// (a message handed out TOGETHER with an error is handed out all the same: retained)
 				snap, e := c06Take(m1)
 				if e != "" {
 					viol = e
